@@ -151,6 +151,13 @@ func runDgram(cfg *runCfg) error {
 		}
 	}
 	cfg.St["roundtrips_monitored"] = monitored
+	// UDPPacket contents around and above the socket buffer size through the real udp.ForwardUserConn (child process)
+	if why := runUdpfwd(); why != "" {
+		implFail = append(implFail, map[string]any{"key": "dgram:udp-forward",
+			"what": "udp.ForwardUserConn did not deliver UDPPacket contents of sizes " + fmt.Sprint(udpfwdSizes) + " intact (bufSize 1500): " + why,
+			"case": "h_c17 udpfwd"})
+	}
+	cfg.St["udp_forward_sizes"] = udpfwdSizes
 	if err := cf.Write(cfg.Out); err != nil {
 		return err
 	}
